@@ -108,35 +108,52 @@ def takeDigits : Bytes → Bytes × Bytes
   | [] => ([], [])
   | c :: cs => if isDigit c then let (d, r) := takeDigits cs; (c :: d, r) else ([], c :: cs)
 
-/-- RFC 8259 number: the token text and the rest -/
-def parseNumber (s : Bytes) : Option (Bytes × Bytes) :=
-  let (sign, s1) : Bytes × Bytes := match s with | 45 :: r => ([45], r) | r => ([], r)
-  match s1 with
+def numSign (s : Bytes) : Bytes × Bytes :=
+  match s with
+  | 45 :: r => ([45], r)
+  | r => ([], r)
+
+/-- integer part: a lone `0`, or a non-zero digit followed by digits -/
+def numInt (s : Bytes) : Option (Bytes × Bytes) :=
+  match s with
   | [] => none
   | d :: r =>
     if !isDigit d then none
-    else
-      let (ip, s2) : Bytes × Bytes := if d == 48 then ([48], r) else takeDigits (d :: r)
-      let frac : Option (Bytes × Bytes) := match s2 with
-        | 46 :: r2 => let (fd, r3) := takeDigits r2; if fd.isEmpty then none else some (46 :: fd, r3)
-        | r2 => some ([], r2)
-      match frac with
+    else if d == 48 then some ([48], r)
+    else some (takeDigits (d :: r))
+
+/-- optional fraction: `.` followed by at least one digit -/
+def numFrac (s : Bytes) : Option (Bytes × Bytes) :=
+  match s with
+  | 46 :: r2 => let (fd, r3) := takeDigits r2; if fd.isEmpty then none else some (46 :: fd, r3)
+  | r2 => some ([], r2)
+
+/-- optional exponent: `e`/`E`, optional sign, at least one digit -/
+def numExp (s : Bytes) : Option (Bytes × Bytes) :=
+  match s with
+  | e :: r3 =>
+    if e == 101 || e == 69 then
+      let (sg, r4) : Bytes × Bytes := match r3 with
+        | 43 :: t => ([43], t)
+        | 45 :: t => ([45], t)
+        | t => ([], t)
+      let (ed, r5) := takeDigits r4
+      if ed.isEmpty then none else some (e :: sg ++ ed, r5)
+    else some ([], e :: r3)
+  | [] => some ([], [])
+
+/-- RFC 8259 number: the token text and the rest -/
+def parseNumber (s : Bytes) : Option (Bytes × Bytes) :=
+  let (sign, s1) := numSign s
+  match numInt s1 with
+  | none => none
+  | some (ip, s2) =>
+    match numFrac s2 with
+    | none => none
+    | some (fp, s3) =>
+      match numExp s3 with
       | none => none
-      | some (fp, s3) =>
-        let exp : Option (Bytes × Bytes) := match s3 with
-          | e :: r3 =>
-            if e == 101 || e == 69 then
-              let (sg, r4) : Bytes × Bytes := match r3 with
-                | 43 :: t => ([43], t)
-                | 45 :: t => ([45], t)
-                | t => ([], t)
-              let (ed, r5) := takeDigits r4
-              if ed.isEmpty then none else some (e :: sg ++ ed, r5)
-            else some ([], e :: r3)
-          | [] => some ([], [])
-        match exp with
-        | none => none
-        | some (ep, s4) => some (sign ++ ip ++ fp ++ ep, s4)
+      | some (ep, s4) => some (sign ++ ip ++ fp ++ ep, s4)
 
 def litTrue : Bytes := [116, 114, 117, 101]
 def litFalse : Bytes := [102, 97, 108, 115, 101]
